@@ -100,4 +100,27 @@ PROPS = {
         "not_modelled": "sql/relation.rs, sql/expr.rs, query_names.rs, expr/split.rs, relation/sql.rs: no model; decided by execution only",
         "assumptions": ["generated queries avoid constructs on which SQLite and PostgreSQL differ (integer division, implicit casts)"],
     },
+    "C07": {
+        "model_targets": ["QV/Corr/C07.vo"],
+        "oracle": "every generated query executed on SQLite over generated conforming databases: each returned value must be a member of the declared column type (NULL only where optional), the row count must lie in the declared size interval",
+        "trusted": [
+            "SQLite as reference engine; harness/src/sqlite.rs; harness/src/c07.rs (reading SQL values in the variant of the declared type, export of the size skeleton with the unique flags as Join::size reads them)",
+            "the cardinality semantics [card] of QV/Rel/Size.v is the definition of what executions may return (bag semantics of filter / limit / offset / group by / the five joins / set operations); it is not derived from a row-level evaluator",
+            "modelled, not verified: Map::size, Reduce::size, Join::size, Set::size; Map::schema_exprs on integer columns (through the C06 / C10 models)",
+        ],
+        "not_modelled": "schemas of Reduce / Join / Set (optional wrapping, aggregate images), non-integer columns: oracle only",
+        "assumptions": ["row counts fit in an i64; ungrouped aggregations read inputs whose declared maximum is >= 1; outer joins without unique flags have a possibly non-empty other side"],
+    },
+    "C14": {
+        "generate": "GEN-FNMETA",
+        "model_targets": ["QV/Corr/C14.vo"],
+        "oracle": "every column flagged Unique / PrimaryKey in the schema of a generated query is checked for duplicates among the non-null values SQLite returns, on databases whose unique base columns are distinct",
+        "trusted": [
+            "translator: harness/src/c14.rs::generate (FnMeta.v: is_bijection / is_unique of every expr::function::Function variant, regenerated on every run)",
+            "SQLite as reference engine",
+            "modelled, not verified: Expr::into_column_modulo_bijection, Map::schema_exprs constraint propagation",
+        ],
+        "not_modelled": "Reduce (First) and Join constraint propagation, Values: oracle only",
+        "assumptions": ["base-table unique columns hold distinct values"],
+    },
 }
